@@ -137,6 +137,7 @@ def h1(
         binning=binning,
         weights=weights,
         dtype=dtype,
+        keep_missed=keep_missed,
     )
 
     return Histogram1D(
